@@ -52,6 +52,7 @@ fn main() {
     }
     let ctx = Ctx { tier_thorough: tier == "thorough", seed, replay };
     if prop == "child" { props::child::main(&args[2..]); return; }
+    if prop == "c19vec" { props::c19::vec_child_main(&args[2..]); return; }
     if prop == "dump" {
         // debugging aid: vharness dump FILE.egg — run a program and print the raw and the canonical dump
         let text = std::fs::read_to_string(&args[2]).expect("read program");
